@@ -34,3 +34,30 @@ fn c07_fn_call_frame_is_popped() {
     core::mem::forget(res);
     core::mem::forget(i);
 }
+
+// @verif prop=C07,C16 tier=thorough timeout=2400 mem=20000 cost=900 clause="nested user-function calls whose inner body fails: neither call leaves its frame behind"
+// @verif sample="5 DEF FNA(P) = FNB(P) + 1 / 6 DEF FNB(Q) = Q / 0 registered; 2 frames open, breakpoint pending; call FNA(1)" bounds="two nested calls, the inner one fails"
+#[kani::proof]
+#[kani::unwind(16)]
+#[kani::stub(std::backtrace::Backtrace::capture, crate::verif_support::stub_backtrace_capture)]
+#[kani::stub(crate::string_manager::StringManager::gc, crate::verif_support::stub_gc)]
+#[kani::stub(alloc::fmt::format, crate::verif_support::stub_format)]
+#[kani::stub(<crate::symbol::Symbol as std::fmt::Display>::fmt, crate::verif_support::stub_symbol_display)]
+fn c07_nested_fn_call_frames_are_popped() {
+    let mut i = Interpreter::default();
+    line(&mut i, 5, vec![Token::Def, tsym("FNA"), Token::LeftParen, tsym("P"), Token::RightParen, Token::Equals, tsym("FNB"), Token::LeftParen, tsym("P"), Token::RightParen, Token::Plus, tnum(1.0)]);
+    line(&mut i, 6, vec![Token::Def, tsym("FNB"), Token::LeftParen, tsym("Q"), Token::RightParen, Token::Equals, tsym("Q"), Token::Divide, tnum(0.0)]);
+    i.program.run_from_first_numbered_line();
+    pa::add_function(&mut i.program, "FNA", "P", 5, 6);
+    pa::add_function(&mut i.program, "FNB", "Q", 6, 6);
+    pa::push_frames(&mut i.program, 2, 5);
+    pa::set_breakpoint(&mut i.program, 5, 0);
+    i.program.set_and_goto_immediate_line(vec![Token::LeftParen, tnum(1.0), Token::RightParen]);
+    let name = sym("FNA");
+    let res = ExpressionEvaluator::new(&mut i).evaluate_user_defined_function_call(&name);
+    assert!(res.is_err(), "c07: the inner body divides by zero");
+    assert!(pa::stack_len(&i.program) == 2, "c07 failing-fn: nested failing calls must not leave frames on the stack");
+    kani::cover!(true, "reached_end");
+    core::mem::forget(res);
+    core::mem::forget(i);
+}
